@@ -60,6 +60,7 @@ inductive Ev where
       (asn : Nat) (emb : Option Bytes)
   | mrt (c : Change) (emb : Option Bytes)
   | down (addr : Ip) (asn id uptime : Nat) (r : SessDown) (emb : Option Bytes)
+  | locUp (rid : Bytes) (asn : Nat) (emb : Option Bytes)
   deriving DecidableEq, Repr
 
 /-- `adj_rib_in_to_bmp_update` / `adj_rib_out_to_bmp_update` / the body of `adj_rib_in_to_mrt` / `loc_rib_to_bmp`:
@@ -173,6 +174,11 @@ def flushRecs (addr : Ip) (asn id upts : Nat) (post : Bool) (chgs : List Change)
           false emb (.eor f)))
     embs
 
+/-- canonical content (characters of the harness' `(open ASN HOLD RID (caps))` term) of the OPEN fabricated by
+    `loc_rib_peer_up`: the router's AS and identifier, hold time 0, the four-octet-AS capability (RFC 9069 §5.2; added by the repair) -/
+def locUpOpen (rid : Bytes) (asn : Nat) : Content :=
+  .other (s!"(open {asn} 0 {rid.foldl (fun a b => a * 256 + b) 0} (caps (as4 {asn})))".toList.map Char.toNat)
+
 /-- The record(s) the daemon hands to the codecs for one event. -/
 def Ev.toRecs : Ev → List Rec
   | .flush addr asn id upts post chgs embs => flushRecs addr asn id upts post chgs embs
@@ -192,6 +198,9 @@ def Ev.toRecs : Ev → List Rec
   | .down addr asn id uptime r emb =>
       [.bmpDown { ptype := 0, flags := 0, dist := 0, addr := addr, asn := asn, bgpId := u32 id,
                   ts := uptime % 4294967296 } (sessDownToBmp r emb)]
+  | .locUp rid asn emb =>
+      [.bmpUp { ptype := 3, flags := 0, dist := 0, addr := .v4 [0, 0, 0, 0], asn := asn, bgpId := rid, ts := 0 }
+         (.v4 [0, 0, 0, 0]) 0 0 emb (locUpOpen rid asn) (locUpOpen rid asn)]
 
 inductive Item where
   | pkt (r : Rec)
@@ -226,7 +235,8 @@ def Ev.tags : Ev → List String
   | .flush addr asn id upts post chgs embs =>
       ["ev-flush", prePost post, s!"fmsgs-{min (flushRecs addr asn id upts post chgs embs).length 4}"]
   | .dump _ c4 c6 =>
-      ["ev-dump", s!"dpeers-{min (buildPeers (c4 ++ c6)).length 4}", s!"dchg4-{min c4.length 3}", s!"dchg6-{min c6.length 3}"]
+      ["ev-dump", s!"dpeers-{min (buildPeers (c4 ++ c6)).length 4}", s!"dchg4-{min c4.length 3}", s!"dchg6-{min c6.length 3}"] ++
+        (if (buildPeers (c4 ++ c6)).length > 255 then ["dpeers-256+"] else [])
   | .rm post c emb =>
       ["ev-rm", v46 c.src.raddr "peer", prePost post, apTag c.ap, (updContent c.fam c.nlris c.attrs c.nh).head] ++ embTags emb
   | .out post addr _ _ fam ap nlri attrs nh _ emb =>
@@ -236,6 +246,7 @@ def Ev.tags : Ev → List String
   | .mrt c emb =>
       ["ev-mrt", v46 c.src.raddr "afi", apTag c.ap, (updContent c.fam c.nlris c.attrs c.nh).head] ++ embTags emb
   | .down _ _ _ _ r _ => ["ev-down", r.tag]
+  | .locUp _ _ emb => ["ev-locup"] ++ embTags emb
 
 def Item.tags : Item → List String
   | .pkt r => r.tags
